@@ -451,4 +451,211 @@ theorem build_meq {b b' : Builder κ} (h : RepoEq b b') : RepoEq (build b) (buil
   cases AMap.get? b k <;> cases AMap.get? b' k <;> simp only [OptRel, Option.map] <;> intro hr <;>
     first | trivial | exact hr.elim | exact hr.mapVals _
 
+/-! ## `Ledger::eval` (`okane eval`) -/
+
+/-- **`Ledger::eval`** on related stores and repositories: the same amount (as a map) or the same error. -/
+theorem eval_meq {env env' : Env String String} (he : EnvEq env env') (hok : EnvOK env) {s s' : Store} (hs : StoreEq s s')
+    (expr : VExpr) (date : Date) (exchange : Option String) :
+    ORel (· = ·) (· ≈ₘ ·) (Query.eval env s expr date exchange) (Query.eval env' s' expr date exchange) := by
+  unfold Query.eval
+  cases exchange with
+  | none =>
+    simp only []
+    have h1 := evalRo_meq expr hs
+    orel_cases h1, evalRo s expr, evalRo s' expr
+    · rename_i v v'
+      have h2 := EvEq.toAmount h1
+      orel_cases h2, v.toAmount, v'.toAmount
+      · exact h2
+      all_goals orel_done h2
+    all_goals orel_done h1
+  | some x =>
+    simp only [hs.resolve x]
+    cases s'.resolve x with
+    | none => simp [ORel]
+    | some c =>
+      simp only []
+      have h1 := evalRo_meq expr hs
+      orel_cases h1, evalRo s expr, evalRo s' expr
+      · rename_i v v'
+        have h2 := EvEq.toAmount h1
+        orel_cases h2, v.toAmount, v'.toAmount
+        · exact convertAmount_env he hok h2 c date
+        all_goals orel_done h2
+      all_goals orel_done h1
+
+/-! ## `okane balance -X`, end to end -/
+section Cmd
+
+/-- the options of `okane balance`: `-X`, `--historical`, `--now`, `--start`, `--end`. -/
+structure BalOpts where
+  exchange : Option String := none
+  historical : Bool := false
+  now : Date
+  range : DateRange := {}
+
+/-- what `okane balance` does after book-keeping: build the price repository from the logged events and the price-db
+events, resolve `-X`, query, print. -/
+def balanceXLines (cfg : Cfg String) (leA leK : String → String → Bool) (showAcct : String → String)
+    (showEntry : String → Rat → String) (db : List (PriceEvent String)) (o : BalOpts) (st : ProcState) :
+    Outcome (QueryErr String) (List String) :=
+  match buildFrom st.events db with
+  | .ok b =>
+    match toConversion st.ctx.commodities o.exchange o.historical o.now with
+    | .ok conv =>
+      match Query.balance st.ctx.prec ⟨cfg, build b, leK, leA⟩ st.txns st.bal ⟨conv, o.range⟩ with
+      | .ok bal => .ok (balanceReport leA leK showAcct showEntry bal)
+      | .err e => .err e
+      | .panic s => .panic s
+      | .fuelOut => .fuelOut
+    | .err e => .err e
+    | .panic s => .panic s
+    | .fuelOut => .fuelOut
+  | .err _ => .panic "unreachable"
+  | .panic s => .panic s
+  | .fuelOut => .fuelOut
+
+theorem toConversion_meq {s s' : Store} (h : StoreEq s s') (exchange : Option String) (historical : Bool) (now : Date) :
+    toConversion s exchange historical now = toConversion s' exchange historical now := by
+  unfold toConversion
+  cases exchange with
+  | none => rfl
+  | some ex => simp only [h.resolve ex]
+
+/-- **the lines (or the error) of `okane balance -X …` are the same for related ledgers.** -/
+theorem balanceXLines_meq {cfg : Cfg String} (hord : OrdOK cfg.ord) {leA leK : String → String → Bool}
+    (hoA : KeyOrder leA) (hoK : KeyOrder leK) (showAcct : String → String) (showEntry : String → Rat → String)
+    (db : List (PriceEvent String)) (o : BalOpts) {st st' : ProcState} (h : st ≈ₚ st') :
+    balanceXLines cfg leA leK showAcct showEntry db o st = balanceXLines cfg leA leK showAcct showEntry db o st' := by
+  have h1 := buildFrom_meq h.events (LRel.refl PEvEq.refl db)
+  unfold balanceXLines
+  rw [toConversion_meq h.ctx.commodities, h.ctx.prec]
+  orel_cases' h1, buildFrom st.events db, buildFrom st'.events db
+  · rename_i b b'
+    simp only []
+    cases toConversion st'.ctx.commodities o.exchange o.historical o.now with
+    | ok conv =>
+      simp only []
+      have he : EnvEq (⟨cfg, build b, leK, leA⟩ : Env String String) ⟨cfg, build b', leK, leA⟩ :=
+        ⟨rfl, rfl, rfl, build_meq h1⟩
+      have h2 := balance_meq st'.ctx.prec he ⟨hord, hoK, hoA⟩ h.txns h.bal ⟨conv, o.range⟩
+      orel_cases h2, Query.balance st'.ctx.prec ⟨cfg, build b, leK, leA⟩ st.txns st.bal ⟨conv, o.range⟩,
+        Query.balance st'.ctx.prec ⟨cfg, build b', leK, leA⟩ st'.txns st'.bal ⟨conv, o.range⟩
+      · simp only [balanceReport_meq hoA hoK showAcct showEntry h2]
+      all_goals first | exact h2.elim | (subst h2; rfl) | rfl | trivial
+    | err e => rfl
+    | panic s => rfl
+    | fuelOut => rfl
+  all_goals first | exact h1.elim | (subst h1; rfl) | rfl | trivial
+
+/-- errors of the whole command: book-keeping (entry index and message) or the query. -/
+inductive CmdErr where
+  | book (entry : Nat) (text : String)
+  | query (e : QueryErr String)
+
+/-- `okane balance` with every option, as a function of the layout history `π`, the entries, the price-db events
+and the options. -/
+def balanceXCmd (cfg : Cfg String) (leA leK : String → String → Bool) (showAcct : String → String)
+    (showEntry : String → Rat → String) (π : Nat → ProcState → ProcState)
+    (x : List Entry × List (PriceEvent String) × BalOpts) : Outcome CmdErr (List String) :=
+  match processScr π {} 0 x.1 with
+  | .ok st => (balanceXLines cfg leA leK showAcct showEntry x.2.1 x.2.2 st).mapErr CmdErr.query
+  | .err (i, e) => .err (.book i (bkErrText leK showEntry e))
+  | .panic s => .panic s
+  | .fuelOut => .fuelOut
+
+theorem balanceXCmd_det {cfg : Cfg String} (hord : OrdOK cfg.ord) {leA leK : String → String → Bool}
+    (hoA : KeyOrder leA) (hoK : KeyOrder leK) (showAcct : String → String) (showEntry : String → Rat → String)
+    {π₁ π₂ : Nat → ProcState → ProcState} (h1 : Relayout π₁) (h2 : Relayout π₂)
+    (x : List Entry × List (PriceEvent String) × BalOpts) :
+    balanceXCmd cfg leA leK showAcct showEntry π₁ x = balanceXCmd cfg leA leK showAcct showEntry π₂ x := by
+  have h := processScr_meq h1 h2 x.1 ProcEq.init 0
+  unfold balanceXCmd
+  orel_cases h, processScr π₁ {} 0 x.1, processScr π₂ {} 0 x.1
+  · simp only [balanceXLines_meq hord hoA hoK showAcct showEntry x.2.1 x.2.2 h]
+  · exact h.elim
+  · exact h.elim
+  · exact h.elim
+  · exact h.elim
+  · rename_i a b
+    obtain ⟨i, e⟩ := a
+    obtain ⟨i', e'⟩ := b
+    obtain ⟨e1, e2⟩ := h
+    simp only at e1 e2; subst e1
+    simp only [e2.text hoK showEntry]
+  all_goals first | exact h.elim | (subst h; rfl) | rfl | trivial
+
+/-- `okane eval EXPR` after book-keeping: the printed amount. -/
+def evalLine (cfg : Cfg String) (leA leK : String → String → Bool) (showEntry : String → Rat → String)
+    (db : List (PriceEvent String)) (expr : VExpr) (date : Date) (exchange : Option String) (st : ProcState) :
+    Outcome (QueryErr String) String :=
+  match buildFrom st.events db with
+  | .ok b =>
+    match Query.eval ⟨cfg, build b, leK, leA⟩ st.ctx.commodities expr date exchange with
+    | .ok a => .ok (Okane.Amount.inlineDisplay leK showEntry a)
+    | .err e => .err e
+    | .panic s => .panic s
+    | .fuelOut => .fuelOut
+  | .err _ => .panic "unreachable"
+  | .panic s => .panic s
+  | .fuelOut => .fuelOut
+
+theorem evalLine_meq {cfg : Cfg String} (hord : OrdOK cfg.ord) {leA leK : String → String → Bool}
+    (hoA : KeyOrder leA) (hoK : KeyOrder leK) (showEntry : String → Rat → String)
+    (db : List (PriceEvent String)) (expr : VExpr) (date : Date) (exchange : Option String) {st st' : ProcState}
+    (h : st ≈ₚ st') :
+    evalLine cfg leA leK showEntry db expr date exchange st = evalLine cfg leA leK showEntry db expr date exchange st' := by
+  have h1 := buildFrom_meq h.events (LRel.refl PEvEq.refl db)
+  unfold evalLine
+  orel_cases' h1, buildFrom st.events db, buildFrom st'.events db
+  · rename_i b b'
+    have he : EnvEq (⟨cfg, build b, leK, leA⟩ : Env String String) ⟨cfg, build b', leK, leA⟩ :=
+      ⟨rfl, rfl, rfl, build_meq h1⟩
+    have h2 := eval_meq he ⟨hord, hoK, hoA⟩ h.ctx.commodities expr date exchange
+    simp only []
+    orel_cases h2, Query.eval ⟨cfg, build b, leK, leA⟩ st.ctx.commodities expr date exchange,
+      Query.eval ⟨cfg, build b', leK, leA⟩ st'.ctx.commodities expr date exchange
+    · simp only [inlineDisplay_meq hoK showEntry h2]
+    all_goals first | exact h2.elim | (subst h2; rfl) | rfl | trivial
+  all_goals first | exact h1.elim | (subst h1; rfl) | rfl | trivial
+
+/-- the inputs of `okane primitive eval`: entries, price-db events, expression, `--date`, `-X`. -/
+structure EvalIn where
+  entries : List Entry
+  db : List (PriceEvent String)
+  expr : VExpr
+  date : Date
+  exchange : Option String
+
+/-- `okane eval` as a function of the layout history and the inputs. -/
+def evalCmd (cfg : Cfg String) (leA leK : String → String → Bool) (showEntry : String → Rat → String)
+    (π : Nat → ProcState → ProcState) (x : EvalIn) : Outcome CmdErr String :=
+  match processScr π {} 0 x.entries with
+  | .ok st => (evalLine cfg leA leK showEntry x.db x.expr x.date x.exchange st).mapErr CmdErr.query
+  | .err (i, e) => .err (.book i (bkErrText leK showEntry e))
+  | .panic s => .panic s
+  | .fuelOut => .fuelOut
+
+theorem evalCmd_det {cfg : Cfg String} (hord : OrdOK cfg.ord) {leA leK : String → String → Bool}
+    (hoA : KeyOrder leA) (hoK : KeyOrder leK) (showEntry : String → Rat → String)
+    {π₁ π₂ : Nat → ProcState → ProcState} (h1 : Relayout π₁) (h2 : Relayout π₂) (x : EvalIn) :
+    evalCmd cfg leA leK showEntry π₁ x = evalCmd cfg leA leK showEntry π₂ x := by
+  have h := processScr_meq h1 h2 x.entries ProcEq.init 0
+  unfold evalCmd
+  orel_cases h, processScr π₁ {} 0 x.entries, processScr π₂ {} 0 x.entries
+  · simp only [evalLine_meq hord hoA hoK showEntry x.db x.expr x.date x.exchange h]
+  · exact h.elim
+  · exact h.elim
+  · exact h.elim
+  · exact h.elim
+  · rename_i a b
+    obtain ⟨i, e⟩ := a
+    obtain ⟨i', e'⟩ := b
+    obtain ⟨e1, e2⟩ := h
+    simp only at e1 e2; subst e1
+    simp only [e2.text hoK showEntry]
+  all_goals first | exact h.elim | (subst h; rfl) | rfl | trivial
+
+end Cmd
+
 end Okane.C13
